@@ -747,6 +747,18 @@ void mmd_export_token_latex(DString * out, const char * source, token * t, scrat
 				case 7:
 					print_const("\\subparagraph{");
 					break;
+
+				default:
+
+					// 'Base Header Level' can push a heading beyond the sectioning
+					// commands there are: use the nearest one
+					if (temp_short + scratch->base_header_level - 1 > 7) {
+						print_const("\\subparagraph{");
+					} else {
+						print_const("\\part{");
+					}
+
+					break;
 			}
 
 			header_clean_trailing_whitespace(t->child, source);
